@@ -20,11 +20,16 @@ EXTRA_PROPS = {
     'C04.remove_owner.restore': ['C14'],
     'C06.reload': ['C14'],
     'C01.hdr.load': ['C03'],               # a known field code treated as unknown is never stripped (seed2 C03-2)
-    'C06.gate': ['C05'],                   # refused call leaves a reply slot -> second error reply later (seed2 C05-1)
+    'C06.gate': ['C05', 'C10'],            # C10: outgoing-queue limit not applied to match-rule recipients (seed2 C10-3)                   # refused call leaves a reply slot -> second error reply later (seed2 C05-1)
     'C12.lengths': ['C05', 'C02'],         # body length rewritten in the wrong byte order when the bus re-locks a forwarded message (seed2 C05-2)
     'C09.expect_reply': ['C13', 'C14'],    # pending-reply limit counted per callee (seed2 C13-2)
     'C09.check_reply': ['C14'],            # slot unlinked before the fallible hook allocations (seed2 C14-2)
-    'C07.driver.remove_match': ['C14'],    # rule removed before the ack is staged (seed2 C14-1)
+    'C07.driver.remove_match': ['C14'],
+    'C12.flags': ['C02'],                  # clearing one header flag clears the others (seed2 C02-4)
+    'C01.hdr.field': ['C09'],              # REPLY_SERIAL 0 accepted: a reply that the gate does not recognise as one (seed2 C09-4)
+    'C15.load_message_fds': ['C10', 'C11'],  # fd count compared with the wrong quantity: daemon crash / chunk-dependent corruption (seed2 C10-4, C11-3)
+    'C15.load_message_fds_atomic': ['C10', 'C11'],
+    'C10.do_reading.bytes': ['C11'],       # read-size hint ignored (seed2 C11-4)    # rule removed before the ack is staged (seed2 C14-1)
 }
 # loop-free units that take ~1 s: a short timeout so that the 'function grew a loop' retry (tool/core.py) starts early
 TIMEOUT = {'C12.edit.set_field': 120, 'C14.hdr_edit.set_field': 120, 'C12.edit.delete_field': 120, 'C14.hdr_edit.delete_field': 120}
